@@ -97,7 +97,7 @@ def harness(eng, fam, P):
     shared = {}
     progs = [Program(eng, b, shared) for b in bodies]
     eng.path_info['program'] = ' || '.join(show(b) for b in bodies)
-    w = World(eng, P.get('universe', U7), sandbox=getattr(eng, 'sandbox', None))
+    w = World(eng, P.get('universe', U7), cache_rel=P.get('cache', 'cache'), sandbox=getattr(eng, 'sandbox', None))
     hist = P['hist']
     try:
         d = Driver(eng, w)
